@@ -268,12 +268,14 @@ Graph::NodeId GlobalGraph::createNodeOnEdge(Graph::EdgeId edge)
   // origin must be an existing edge
   edgeMustExist_(edge, "");
 
-  Graph::NodeId newNode = createNode();
-
   // determining the nodes on the border of the edge
   pair<GlobalGraph::Node, GlobalGraph::Node> nodes = edgeStructure_[edge];
   GlobalGraph::Node nodeA = nodes.first;
   GlobalGraph::Node nodeB = nodes.second;
+  if (!directed_ && nodeA == nodeB)
+    throw Exception("GlobalGraph::createNodeOnEdge : cannot split an undirected loop " + TextTools::toString(edge));
+
+  Graph::NodeId newNode = createNode();
 
   unlink(nodeA, nodeB);
   link(nodeA, newNode);
